@@ -221,7 +221,8 @@ def abstract_graph(root_key, children, direct=lambda k: False):
             kids_cache[k] = r
         return r
 
-    stack = [(root_key, False)]
+    roots = root_key if isinstance(root_key, list) else [root_key]
+    stack = [(rk, False) for rk in reversed(roots)]
     while stack:
         k, done = stack.pop()
         if k in index:
@@ -548,7 +549,9 @@ def random_dag(env, rng, n):
             m.BVULE(pool["v"][-1], pool["v"][0]), m.Equals(m.Select(pool["a"][-1], pool["i"][0]), pool["i"][1])]
     phi = m.And(tops)
     decls = [f for s in pool for f in pool[s][:3] if f.is_symbol()]
-    return Fam(env, "random", {"shape": "random", "n": n}, phi, pool["i"][0], pool["i"][1], 0, decls)
+    fam = Fam(env, "random", {"shape": "random", "n": n}, phi, pool["i"][0], pool["i"][1], 0, decls)
+    fam.pool = pool
+    return fam
 
 
 # ----------------------------------------------------------------------------------------------
@@ -774,6 +777,9 @@ def check_parse(ctx, env, fam, fam_sig, timings):
         timings["print_script"] = time.time() - t0
     except RecursionError:
         ctx.report_s(dict(sig, oracle="recursion", op="print_script"), "RecursionError printing the script", replay)
+        return False
+    except Exception as e:      # noqa
+        ctx.report_k("printing the script of %s raised %r" % (fam.name, e), replay)
         return False
     cnt = collections.Counter()
     orig = m.create_node
